@@ -144,7 +144,7 @@ def split_variant_check(rec, b, layer, d, a):
     table2, changed = [], False
     for vals, pairs in sp['split']['table']:
         parts = [p_[1] for p_ in pairs]
-        if len(set(parts)) >= 2:
+        if len({json.dumps(q, sort_keys=True) for q in parts}) >= 2:
             changed = True
             parts = parts[1:] + parts[:1]
         table2.append([vals, [[p_[0], q] for p_, q in zip(pairs, parts)]])
